@@ -331,12 +331,21 @@ func Fqdn(s string) string {
 // form is lowercase and fully qualified. Only US-ASCII letters are affected. See
 // Section 6.2 in RFC 4034.
 func CanonicalName(s string) string {
-	return strings.Map(func(r rune) rune {
-		if r >= 'A' && r <= 'Z' {
-			r += 'a' - 'A'
+	s = Fqdn(s)
+	for i := 0; i < len(s); i++ {
+		if s[i] < 'A' || s[i] > 'Z' {
+			continue
 		}
-		return r
-	}, Fqdn(s))
+		// Fold octets, not runes: an octet above 0x7f need not be UTF-8.
+		b := []byte(s)
+		for ; i < len(b); i++ {
+			if b[i] >= 'A' && b[i] <= 'Z' {
+				b[i] += 'a' - 'A'
+			}
+		}
+		return string(b)
+	}
+	return s
 }
 
 // Copied from the official Go code.
